@@ -101,14 +101,28 @@ def expiredSegment (strict : Bool) (E : Env) (cal : CalTable) (c : Conf) (p f : 
     | none => false
   | none => false
 
-/-- confs under which `f` is an expired segment of a path with retention. -/
-def justifiers (strict : Bool) (E : Env) (rx : RxTable) (cal : CalTable) (confs : List Conf) (f : Bytes) : List Conf :=
+/-- (conf, path name) pairs under which `f` is an expired segment of a path with retention. -/
+def justifiers (strict : Bool) (E : Env) (rx : RxTable) (cal : CalTable) (confs : List Conf) (f : Bytes) :
+    List (Conf × Bytes) :=
   confs.flatMap fun c => (candNames E c f).filterMap fun p =>
     if (isValidPathName p).isNone then
       match confOf? E rx confs p with
-      | some c' => if c'.deleteAfter != 0 && expiredSegment strict E cal c' p f then some c' else none
+      | some c' => if c'.deleteAfter != 0 && expiredSegment strict E cal c' p f then some (c', p) else none
       | none => none
     else none
+
+/-- decidable class of the known finding `repeatedPlaceholder`: the path `p` of the segment `f` is served
+by a regexp conf, and some regexp conf whose record path has several `%path` could list `p` from `f`
+(a coherent parse exists and its regexp matches `p`) but the pattern's first full match is incoherent,
+so the code rejects the file in the path-listing flow. -/
+def repeatedMiss (E : Env) (rx : RxTable) (confs : List Conf) (c' : Conf) (p f : Bytes) : Bool :=
+  c'.isRegexp && confs.any fun c =>
+    let toks := tokenize (recPathRx E c.fmt)
+    c.isRegexp && MtxVerif.C26.pathCount toks ≥ 2 && inWalk (commonPath (recPathRx E c.fmt)) f &&
+    (match MtxVerif.C26.matchAnchored toks f with
+      | some m => !consistent m.caps
+      | none => false) &&
+    (candNames E c f).contains p && rxLookup rx c.key p == some true
 
 def justified (strict : Bool) (E : Env) (rx : RxTable) (cal : CalTable) (confs : List Conf) (f : Bytes) : Bool :=
   !(justifiers strict E rx cal confs f).isEmpty
@@ -150,7 +164,7 @@ def step (d : D) (op impl : String) : D × DrvOut :=
                   s!"FAIL deleted a look-alike file that is not a segment (regression of F-C26): {Hex.encode f}"
                 else s!"FAIL deleted a file that is not an expired segment of a path with retention: {Hex.encode f}"
               | none, some f =>
-                if (justifiers true E rx cal confs f).all fun c => MtxVerif.C26.pathCount (tokenize c.fmt) != 1 then
+                if (justifiers true E rx cal confs f).all fun cp => repeatedMiss E rx confs cp.1 cp.2 f then
                   s!"KNOWN repeatedPlaceholder an expired segment was not deleted (record path with several %path): {Hex.encode f}"
                 else s!"FAIL an expired segment was not deleted: {Hex.encode f}"
               | none, none => "ok"
